@@ -245,7 +245,7 @@ func (g *G[P, F, S]) DrawnOps(t *rapid.T) {
 }
 
 func TestGroupOpsDrawn(t *testing.T) {
-	vlib.Check(t, 14000, func(t *rapid.T) { drawGroup(t).DrawnOps(t) })
+	vlib.Check(t, 16000, func(t *rapid.T) { drawGroup(t).DrawnOps(t) })
 }
 
 // ---- scalar multiplication -----------------------------------------------------------------------
@@ -401,7 +401,7 @@ func (g *G[P, F, S]) ScalarMulCase(t *rapid.T) {
 }
 
 func TestScalarMul(t *testing.T) {
-	vlib.Check(t, 4800, func(t *rapid.T) { drawGroup(t).ScalarMulCase(t) })
+	vlib.Check(t, 6400, func(t *rapid.T) { drawGroup(t).ScalarMulCase(t) })
 }
 
 // ScalarLaws: second line, relations between library results only (prime-order operands):
